@@ -110,6 +110,8 @@ pub fn gen(r: &mut Rng, t: &Value, cfg: &Cfg) -> Value {
             }
         }
         "any" => rand_json(r, 0),
+        // the tag member of a tagged struct: not looked at on input, so anything may stand there
+        "const" => if r.chance(1, 4) { rand_json(r, 1) } else { a[1].clone() },
         "objany" => {
             let mut m = Map::new();
             for _ in 0..r.below(3) {
